@@ -179,7 +179,7 @@ func emit(prop string, groups []Group, dir string, shard int) int {
 			end = len(groups)
 		}
 		var b strings.Builder
-		b.WriteString("From Godi Require Import Base Model Check Monitors Checks.\n")
+		b.WriteString("From Coq Require Import NArith.\nFrom Godi Require Import Base Model Check Monitors Checks.\n")
 		for _, g := range groups[start:end] {
 			var pairs []string
 			for _, c := range g.Cases {
@@ -191,7 +191,7 @@ func emit(prop string, groups []Group, dir string, shard int) int {
 			if len(pairs) != len(g.Cases) {
 				continue // crashed groups are reported by the driver, not evaluated
 			}
-			fmt.Fprintf(&b, "Eval vm_compute in (%d, check_%s [%s]).\n", g.ID, prop, strings.Join(pairs, ";\n  "))
+			fmt.Fprintf(&b, "Eval vm_compute in (%d%%N, check_%s [%s]).\n", g.ID, prop, strings.Join(pairs, ";\n  "))
 		}
 		path := fmt.Sprintf("%s/cases_%s_%d.v", dir, prop, nfiles)
 		if err := os.WriteFile(path, []byte(b.String()), 0o644); err != nil {
